@@ -66,6 +66,31 @@ class Capture(io.TextIOWrapper):
                          errors='backslashreplace', newline='\n',
                          write_through=True)
         self._kb = self.buffer
+        self.own = []      # [start, end) byte ranges written through the
+        #                    text layer (the process's own prints); bytes
+        #                    relayed from children go to .buffer directly
+
+    def write(self, s):
+        kb = self._kb
+        p0 = kb.tell()
+        n = super().write(s)
+        p1 = kb.tell()
+        if p1 > p0:
+            own = self.own
+            if own and own[-1][1] == p0:
+                own[-1][1] = p1
+            else:
+                own.append([p0, p1])
+        return n
+
+    def own_masked(self):
+        """The captured bytes with everything *not* written through the text
+        layer replaced by newlines (same offsets)."""
+        v = self.value()
+        m = bytearray(b'\n' * len(v))
+        for a, b in self.own:
+            m[a:b] = v[a:b]
+        return bytes(m)
 
     def value(self):
         kb = self._kb
@@ -85,7 +110,7 @@ class Capture(io.TextIOWrapper):
 
 
 class Result:
-    __slots__ = ('out', 'err', 'failed', 'escaped', 'escaped_tb', 'ran',
+    __slots__ = ('out', 'out_own', 'err', 'failed', 'escaped', 'escaped_tb', 'ran',
                  'failures', 'errors', 'skipped', 'import_errors', 'trace',
                  'children', 'resumed', 'state_before', 'state_after',
                  'streams_after', 'spawned', 'kills', 'live_max', 'text',
@@ -151,14 +176,17 @@ class _FakePopen:
         act = hook(layer, args) if hook else None
         if act and act[0] == 'oserror':
             raise OSError(12, 'Cannot allocate memory (injected)')
+        vpid = None
         if act and act[0] == 'bytes':
             out, err = act[1], act[2]
         else:
             out, err = ctx.run_child(args)
+            vpid = ctx.nchild
             if act and act[0] == 'mangle':
                 out, err = act[1](out, err)
         ctx.children.append({'layer': layer, 'args': list(args),
-                             'stdout': out, 'stderr': err})
+                             'stdout': out, 'stderr': err,
+                             'vpid': vpid})
         self.stdout = io.BytesIO(out)
         self.stderr = io.BytesIO(err)
         self.stdin = None
@@ -286,6 +314,9 @@ def run_world(spec, argv, child_hook=None, warnings=None, probe=True,
     out, err = Capture(), Capture()
     saved_streams = (sys.stdout, sys.stderr, sys.stdin)
     saved_names = (R.subprocess, R.threading, R.time)
+    import logging
+    root_logger = logging.getLogger()
+    saved_handlers = root_logger.handlers[:]
     saved_trace = (worldrt.TRACE, worldrt.VPID, worldrt.PROBE)
     worldrt.TRACE = trace = []
     worldrt.VPID = 0
@@ -326,12 +357,15 @@ def run_world(spec, argv, child_hook=None, warnings=None, probe=True,
         if want_state:
             res.state_after = global_state()
         R.subprocess, R.threading, R.time = saved_names
+        # the Logging feature adds a NullHandler per run and never removes it
+        root_logger.handlers[:] = saved_handlers
         worldrt.TRACE, worldrt.VPID, worldrt.PROBE = saved_trace
         worldrt.uninstall(prev_mod)
         CUR_OUT, CUR_ERR = saved_cur
         _CTX.pop()
     res.wall = _real_time.time() - t0
     res.out = out.value()
+    res.out_own = out.own_masked()
     res.err = err.value()
     res.text = res.out.decode('utf-8', 'backslashreplace')
     res.trace = trace
